@@ -15,7 +15,7 @@ RULE = ("conv probe, EXHAUSTIVE over the configuration space: 5 extension flags 
         "STARTTLS), the same probes with keywords and values in another letter case, plus a HELO conversation; capability lines compared as an ordered list with the specification table, probe "
         "replies with the 504 rule. non-trivial = every case (a capability reply is produced); distinct = distinct configuration")
 THEOREMS = ["C12_caps_exact", "C12_helo_none", "C12_ehlo_reply", "C12_disabled_504_mail", "C12_disabled_504_rcpt", "caps_keywords",
-            "C12_starttls_honoured", "C12_auth_honoured", "C12_keyword_iff_enabled", "C12_requiretls_honoured_iff_advertised"]
+            "C12_starttls_honoured", "C12_auth_honoured", "C12_keyword_iff_enabled", "C12_requiretls_honoured_iff_advertised", "C12_caps_depend_on_config_and_tls_only"]
 nontrivial = lambda case, ans: True
 signature = cc.signature
 mutate = lambda case, rng: []
